@@ -111,6 +111,24 @@ def loop_circulation(f, c, rad, rot, breaks=None, npoly=0, limit=300):
 
 
 # ------------------------------------------------------------------ cases
+def disc_crossings(V, c, normal, rad):
+    """signed number of times the closed polyline V threads the disc (centre c, unit normal, radius rad);
+    None when a crossing is too close to the rim to be decided by construction"""
+    tot = 0
+    for a, b in zip(V[:-1], V[1:]):
+        da, db = np.dot(a - c, normal), np.dot(b - c, normal)
+        if da == db or (da > 0) == (db > 0):
+            continue
+        t = da / (da - db)
+        x = a + t * (b - a)
+        rho = np.linalg.norm(x - c - np.dot(x - c, normal) * normal)
+        if 0.75 * rad < rho < 1.25 * rad:
+            return None
+        if rho <= 0.75 * rad:
+            tot += 1 if db > da else -1
+    return tot
+
+
 def rand_closed_polyline(rng):
     n = int(rng.integers(3, 7))
     t = np.sort(rng.uniform(0, 2 * np.pi, n))
@@ -216,11 +234,20 @@ def check_case(ctx, case):
                 lrot = R.from_matrix(np.c_[xax, yax, zax])
                 rad = span * float(10 ** rng.uniform(-1.5, -0.3))
                 if kind == "circ_link":
-                    cl = wp_local + lrot.apply([rad * rng.uniform(-0.5, 0.5), rad * rng.uniform(-0.5, 0.5), 0])
+                    cl = wp_local + lrot.apply([rad * rng.uniform(-0.4, 0.4), rad * rng.uniform(-0.4, 0.4), 0])
                     expected = I * sign
                 else:
                     cl = wp_local + lrot.apply([rad * 1.6, rad * 1.1, 0.0])
                     expected = 0.0
+                if s["cls"] == "Polyline":
+                    # linking number by construction: signed crossings of ALL segments through the loop's disc
+                    n = disc_crossings(np.array(s["vertices"]), cl, zax, rad)
+                    if n is None:
+                        ctx.count("loop_too_close_to_another_segment")
+                        return
+                    expected = I * n
+                    if (kind == "circ_link") != (n != 0):
+                        ctx.count("linking_by_construction_differs_from_intent")
                 val, err, area = loop_circulation(f, G.to_global(s, cl)[0], rad, R0 * lrot, npoly=int(rng.choice([0, 0, 5])), limit=qlimit)
             else:  # loop through / around a magnet: no free current
                 rad = size * float(10 ** rng.uniform(-1, 0.3))
